@@ -110,8 +110,23 @@ impl std::fmt::Debug for Tk {
 }
 
 /// Plain element: no destructor, identity = value.  Ledger obligations are vacuous for it.
-#[derive(Debug, PartialEq, Eq, Clone, Default)]
+/// (Not Copy: its Clone is observable, like Tk's, and gives the clone its own identity.)
+#[derive(Debug, PartialEq, Eq)]
 pub struct Pl(pub u64);
+impl Clone for Pl {
+    fn clone(&self) -> Pl {
+        let n = Pl::fresh();
+        ev!("\"ev\":\"clone\",\"src\":{},\"new\":{}", self.0, n.0);
+        n
+    }
+}
+impl Default for Pl {
+    fn default() -> Pl {
+        let n = Pl::fresh();
+        ev!("\"ev\":\"mkdef\",\"id\":{}", n.0);
+        n
+    }
+}
 impl Elem for Pl {
     const ETY: &'static str = "plain";
     fn fresh() -> Pl {
@@ -119,5 +134,40 @@ impl Elem for Pl {
     }
     fn id(&self) -> i64 {
         self.0 as i64
+    }
+}
+
+/// Zero-sized drop-tracked element: no identity; creations, clones and destructor runs are
+/// logged anonymously (id 0) and the specification infers which element each one is.
+pub struct TkZ;
+impl Elem for TkZ {
+    const ETY: &'static str = "zst";
+    fn fresh() -> TkZ {
+        TkZ
+    }
+    fn id(&self) -> i64 {
+        0
+    }
+}
+impl Drop for TkZ {
+    fn drop(&mut self) {
+        ev!("\"ev\":\"drop\",\"id\":0,\"panic\":false");
+    }
+}
+impl Clone for TkZ {
+    fn clone(&self) -> TkZ {
+        ev!("\"ev\":\"clone\",\"src\":0,\"new\":0");
+        TkZ
+    }
+}
+impl Default for TkZ {
+    fn default() -> TkZ {
+        ev!("\"ev\":\"mkdef\",\"id\":0");
+        TkZ
+    }
+}
+impl std::fmt::Debug for TkZ {
+    fn fmt(&self, f: &mut std::fmt::Formatter) -> std::fmt::Result {
+        write!(f, "TkZ")
     }
 }
